@@ -350,6 +350,22 @@
 //!          `[[example]]`, `[[bin]]`, `[[bench]]`, nor a `build` key; `build.rs` may not exist (exit 2).
 //! C-STALE  now also between the receiver of `map_or` and its default argument.
 //!
+//! C-PRIM   ("pinned primitives") the functions that the translation calls BY NAME with the meaning
+//!          of a hand model (rule 10) are not translated, so their text - attributes (doc comments
+//!          excepted), visibility, signature and body, as `quote!` prints them - must be, token for
+//!          token, today's (table src/pins.rs; regenerate with `rs2coq --dump-pins <src-dir>` after
+//!          a reviewed change): in num.rs `impl Float for f32` / `f64`: `pow_fast_path`, `from_u64`,
+//!          `from_bits`, `to_bits` (no other method is allowed there: C-IMPL); `int_pow_fast_path`;
+//!          the std `powf` / `powd` wrappers (the no-std variant is the whitelisted import from
+//!          libm.rs); `enum FastPathRadix` and `impl From<FastPathRadix> for u64`; the hook
+//!          `verif_int_pow_fast_path`.  Their meaning is model/Number.v (`pow_fast_path`,
+//!          `int_pow_fast_path`), model/FloatOps.v (`f_from_u64`, `f_mul`, `f_div`, `f_neg`),
+//!          model/Num.v (`from_bits`); their values on all reachable arguments are re-dumped from
+//!          the compiled crate and checked by the properties C14 / C17.  Any difference: exit 2
+//!          (the meaning of rule 10 would be unknown).  Already pinned elsewhere: `Number::default`
+//!          is the derive (rule 14, C-IMPL), the field lists of `ExtendedFloat` / `Number` /
+//!          `BellerophonPowers` (rule 9), `shl_limbs` (rule 23: tied at cell level by rule 28-30).
+//!
 //! Anything else (other statements, patterns, methods, macros, types, labelled blocks, `continue`,
 //! …) is an error, and the translator fails closed
 //! PER FUNCTION: a function that cannot be translated is omitted from the output (a comment
@@ -367,6 +383,7 @@ mod expr;
 mod heap;
 mod lower;
 mod macros;
+mod pins;
 mod raw;
 mod ty;
 mod vecs;
@@ -1218,6 +1235,14 @@ fn main() {
     if args.len() < 2 {
         fail("usage: rs2coq <src-dir> [<out-dir> | only-function ...]".into());
     }
+    if args[1] == "--dump-pins" && args.len() == 3 {
+        // maintenance: print the pinnable texts of num.rs (to regenerate src/pins.rs)
+        let f = parse_file(&args[2], "num.rs");
+        for (o, n, t) in check::pinnable(&f) {
+            println!("    (\"num.rs\", {:?}, {:?}, {:?}),", o, n, t);
+        }
+        return;
+    }
     let dir = &args[1];
     // `rs2coq <src-dir> <out-dir>`: all four files; `rs2coq <src-dir>`: gen/Src.v on stdout
     let out_dir: Option<&String> = if args.len() == 3 && std::path::Path::new(&args[2]).is_dir() { Some(&args[2]) } else { None };
@@ -1280,7 +1305,8 @@ fn main() {
         let mut names: Vec<&String> = files.keys().collect();
         names.sort();
         for name in names {
-            let p = check::check_file(name, &files[name], &known);
+            let mut p = check::check_file(name, &files[name], &known);
+            p.extend(check::check_pinned_primitives(name, &files[name]));
             if let Some(e) = p.first() {
                 if matches!(name.as_str(), "num.rs" | "extended_float.rs" | "number.rs" | "bellerophon.rs" | "table_lemire.rs") {
                     fail(format!("{}: {}", name, e));
